@@ -23,12 +23,14 @@ int main() {
       try { if (k == 0) c.SetMixingAngle(i, j, val(v)); else if (k == 1) c.SetPhase(i, j, val(v)); else c.SetEnergyDifference(i, val(v)); }
       catch (std::exception&) { threw = true; }
       // reads between the writes: the mixing matrix is a function of the stored parameters, asking for it changes nothing
-      for (unsigned d = 2; d <= 6; d++) { auto U = c.GetTransformationMatrix(d); (void)U; }
+      // (one dimension per case, the same one every time, so that whatever the store remembers about its last answer is in play)
+      { auto U = c.GetTransformationMatrix(2 + n % 5); (void)U; }
     }
     {
       Const f;      // a fresh store given the final parameters only
       for (unsigned j = 1; j < 6; j++) for (unsigned i = 0; i < j; i++) { f.SetMixingAngle(i, j, c.GetMixingAngle(i, j)); f.SetPhase(i, j, c.GetPhase(i, j)); }
-      for (unsigned d = 2; d <= 6; d++) {
+      for (unsigned q = 0; q < 5; q++) {
+        unsigned d = 2 + (n + q) % 5;            // the dimension asked for between the writes first, then the others
         auto U = c.GetTransformationMatrix(d), V = f.GetTransformationMatrix(d);
         bool same = U->size1 == d && U->size2 == d;
         for (unsigned a = 0; a < d && same; a++) for (unsigned b = 0; b < d; b++) {
